@@ -6,6 +6,8 @@
 // configuration, a fresh event object and the same deviate stream yields.
 // Modes: --cover (every (state, action) pair of the graph, online walk), --walks N --walklen L (seeded), --seqfile.
 #include <algorithm>
+#include <unistd.h>
+#include <cstdio>
 #include <chrono>
 #include <map>
 #include <memory>
@@ -29,9 +31,16 @@ static std::vector<std::map<int, int>> succ;
 static int init_sid = -1;
 static bool with_op = false;
 
-static void configure(decay0_generator & g, const std::string & c)
+static void configure(decay0_generator & g, const std::string & c_)
 {
-  // "Co60" | "Bi207" (background) | "<iso>.<level>.<mode>" (double beta)
+  // "Co60" | "Bi207" (background) | "<iso>.<level>.<mode>[@<lo>:<hi>]" (double beta, optional energy-sum window in MeV)
+  std::string win;
+  std::string c = c_;
+  size_t at = c.find('@');
+  if (at != std::string::npos) {
+    win = c.substr(at + 1);
+    c   = c.substr(0, at);
+  }
   size_t p = c.find('.');
   if (p == std::string::npos) {
     g.set_decay_category(decay0_generator::DECAY_CATEGORY_BACKGROUND);
@@ -42,6 +51,10 @@ static void configure(decay0_generator & g, const std::string & c)
     g.set_decay_isotope(c.substr(0, p));
     g.set_decay_dbd_level(std::atoi(c.substr(p + 1, q - p - 1).c_str()));
     g.set_decay_dbd_mode((bxdecay0::dbd_mode_type)std::atoi(c.substr(q + 1).c_str()));
+    if (!win.empty()) {
+      size_t colon = win.find(':');
+      g.set_decay_dbd_esum_range(std::atof(win.substr(0, colon).c_str()), std::atof(win.substr(colon + 1).c_str()));
+    }
   }
   if (with_op) {
     auto op = std::make_shared<bxdecay0::momentum_direction_lock_event_op>();
@@ -54,11 +67,10 @@ static uint64_t seed_of(const std::string & s) { return 1000003ULL * (uint64_t)s
 
 static std::map<std::string, std::string> canon_cache;
 static long n_canon = 0;
-static std::string canon(const std::string & cfg, const std::string & s)
+static std::string self_exe;
+// the event a fresh instance with this configuration, a fresh event object and this deviate stream yields
+static std::string canon_here(const std::string & cfg, const std::string & s)
 {
-  std::string k = cfg + "|" + s;
-  auto it = canon_cache.find(k);
-  if (it != canon_cache.end()) return it->second;
   decay0_generator g;
   configure(g, cfg);
   vh::stream ip(99);
@@ -66,8 +78,34 @@ static std::string canon(const std::string & cfg, const std::string & s)
   bxdecay0::event ev;
   vh::stream st(seed_of(s));
   g.shoot(st, ev);
+  return vh::fingerprint(ev);
+}
+// ... computed in a process of its own (exec of this program with --canon): nothing an earlier request may have left behind
+// in this process - a static table, a cached maximum - can have touched it
+static std::string canon(const std::string & cfg, const std::string & s)
+{
+  std::string k = cfg + "|" + s;
+  auto it = canon_cache.find(k);
+  if (it != canon_cache.end()) return it->second;
   n_canon++;
-  return canon_cache[k] = vh::fingerprint(ev);
+  std::string out;
+  if (!self_exe.empty()) {
+    std::string cmd = "'" + self_exe + "' --canon '" + cfg + "' '" + s + "'" + (with_op ? " --with-op" : "") + " 2>/dev/null";
+    FILE * pf = popen(cmd.c_str(), "r");
+    if (pf) {
+      char buf[4096];
+      while (size_t n = fread(buf, 1, sizeof buf, pf)) out.append(buf, n);
+      pclose(pf);
+    }
+    size_t a = out.find("CANON<"), b = out.rfind(">CANON");
+    if (a != std::string::npos && b != std::string::npos && b > a) {
+      out = out.substr(a + 6, b - a - 6);
+    } else {
+      out.clear();
+    }
+  }
+  if (out.empty()) out = canon_here(cfg, s);
+  return canon_cache[k] = out;
 }
 
 struct Viol
@@ -180,8 +218,20 @@ int main(int argc, char ** argv)
   uint64_t seed = 1;
   double budget = 60;
   size_t maxlen = 400;
+  {
+    char buf[4096];
+    ssize_t n = readlink("/proc/self/exe", buf, sizeof buf - 1);
+    if (n > 0) self_exe.assign(buf, (size_t)n);
+  }
   for (int i = 1; i < argc; i++) {
     std::string a = argv[i];
+    if (a == "--canon" && i + 2 < argc) {
+      for (int j = i + 3; j < argc; j++)
+        if (std::string(argv[j]) == "--with-op") with_op = true;
+      std::string fp = canon_here(argv[i + 1], argv[i + 2]);
+      std::cout << "CANON<" << fp << ">CANON" << std::endl;
+      return 0;
+    }
     if (a == "--graph") graph = argv[++i];
     else if (a == "--cover") do_cover = true;
     else if (a == "--walks") walks = std::atol(argv[++i]);
